@@ -354,6 +354,31 @@ def gen_scenario(ch, prof):
                 add(f'e{n}', e)
                 n += 1
 
+    # mixed sources: a synchronized consumer that additionally listens ephemerally to another publisher, the ephemeral
+    # source listed before or after the synchronized ones
+    if prof.ephemeral and _chance(ch, 1, 3):
+        cands = [n for n in order if not nodes[n].get('side') and not nodes[n].get('sources_balance') and
+                 any(not s.get('eph') for s in nodes[n].get('sources') or [])]
+        if cands:
+            n = ch.pick('gen', cands)
+            idx = order.index(n)
+            have = {s['from'] for s in nodes[n]['sources']}
+            pubs2 = [q for q in order[:idx] if q not in have and nodes[q].get('has_output', True) and
+                     not nodes[q].get('side') and not nodes[q].get('outputs_balance')]
+            if _chance(ch, 1, 2):
+                # attached to the SAME publisher twice: synchronized for its topics, ephemerally for (another) one
+                same = [s['from'] for s in nodes[n]['sources'] if not s.get('eph')]
+                pubs2 = same or pubs2
+            if pubs2:
+                q = ch.pick('gen', pubs2)
+                outs = nodes[q]['out']
+                sub = [[outs[-1]['name'] if q in have else outs[0]['name'], f'x{q}']]
+                entry = {'from': q, 'sub': sub, 'eph': ch.pick('gen', list(prof.eph_kinds))}
+                if _chance(ch, 1, 2):
+                    nodes[n]['sources'].insert(0, entry)
+                else:
+                    nodes[n]['sources'].append(entry)
+
     if prof.staggered_start and _chance(ch, 1, 3):
         for nid in order:
             if _chance(ch, 1, 2):
@@ -442,7 +467,25 @@ def gen_c04(ch, prof, stall_s=None):
                       'proc_ns': gen_proc_pattern(ch, prof), 'form': 'dict'})
         prev = f'r{i}'
     dur = (stall_s if stall_s is not None else ch.pick('gen', [20, 30, 60])) * SEC
-    add('k', {'sources': [{'from': prev, 'sub': None}], 'has_output': False, 'proc_ns': gen_proc_pattern(ch, prof),
+    ksrcs = [{'from': prev, 'sub': None}]
+    if _chance(ch, 1, 3):
+        # the stalling consumer also listens ephemerally to an auxiliary source, listed before or after the synchronized one
+        add('x', {'src': True, 'n_frames': 10 ** 9, 'period_ns': ch.pick('gen', [50, 20, 200]) * MS,
+                  'out': [{'name': 'aux'}], 'form': 'dict'})
+        e = {'from': 'x', 'sub': [['aux', 'aux']], 'eph': ch.rng_int('gen', 1, 2)}
+        if _chance(ch, 1, 2):
+            ksrcs.insert(0, e)
+        else:
+            ksrcs.append(e)
+    elif _chance(ch, 1, 4):
+        # attached to its publisher twice: synchronized and, for a second name of the same topic, ephemerally
+        e = {'from': prev, 'sub': [['main', 'again']], 'eph': 1}
+        ksrcs = [{'from': prev, 'sub': [['main', 'main']]}]
+        if _chance(ch, 1, 2):
+            ksrcs.insert(0, e)
+        else:
+            ksrcs.append(e)
+    add('k', {'sources': ksrcs, 'has_output': False, 'proc_ns': gen_proc_pattern(ch, prof),
               'stall_at': [ch.rng_int('gen', 1, 12), dur]})
     if _chance(ch, 1, 2):
         add('k2', {'sources': [{'from': prev, 'sub': None}], 'has_output': False,
